@@ -22,6 +22,7 @@ import (
 	"syscall"
 	"time"
 
+	"github.com/magisterquis/curlrevshell/lib/sstls"
 	"github.com/magisterquis/curlrevshell/verifx/ev"
 	"github.com/magisterquis/curlrevshell/verifx/hworld"
 	"github.com/magisterquis/curlrevshell/verifx/ptyrun"
@@ -69,6 +70,7 @@ var c20Keywords = map[string][]string{
 	"listen-not-local":         {"listen", "cannot assign"},
 	"cache-empty":              {"certificate"},
 	"cache-cut":                {"certificate"},
+	"cache-spliced":            {"certificate", "key"},
 	"cache-garbage":            {"certificate"},
 	"cache-unwritable":         {"certificate"},
 	"cache-dir-takes-no-files": {"certificate"},
@@ -113,6 +115,21 @@ func c20Args(c c20Case, dir string, goodCache []byte) (args []string, cleanup fu
 			os.MkdirAll(filepath.Dir(cache), 0o700)
 			i := strings.Index(string(goodCache), "-- key --")
 			os.WriteFile(cache, goodCache[:i], 0o600)
+		case "cache-spliced":
+			/* The certificate of one good cache with the key of another
+			(a file patched together from two backups). */
+			os.MkdirAll(filepath.Dir(cache), 0o700)
+			other := filepath.Join(dir, "other-cache.txtar")
+			if _, err := sstls.GetCertificate("", nil, nil, 24*time.Hour, other); nil != err {
+				ev.Broken("%s", err)
+			}
+			ob, _ := os.ReadFile(other)
+			i, j := strings.Index(string(goodCache), "-- key --"), strings.Index(string(ob), "-- key --")
+			if i < 0 || j < 0 {
+				ev.Broken("cache files have no key section")
+			}
+			os.WriteFile(cache, append(append([]byte{}, goodCache[:i]...), ob[j:]...), 0o600)
+			os.Remove(other)
 		case "cache-garbage":
 			os.MkdirAll(filepath.Dir(cache), 0o700)
 			os.WriteFile(cache, []byte("-- cert --\nnot pem\n-- key --\nnot pem either\n"), 0o600)
@@ -360,7 +377,7 @@ func c20(r *ev.Result, tier string) {
 	/* A good cache file, to damage. */
 	good := c20GoodCache(base)
 
-	faults := []string{"listen-bad-syntax", "listen-port-bound", "listen-not-local", "cache-empty", "cache-cut", "cache-garbage", "cache-unwritable", "cache-dir-takes-no-files", "log-parent-missing", "log-parent-is-file", "ctrl-i-missing"}
+	faults := []string{"listen-bad-syntax", "listen-port-bound", "listen-not-local", "cache-empty", "cache-cut", "cache-garbage", "cache-spliced", "cache-unwritable", "cache-dir-takes-no-files", "log-parent-missing", "log-parent-is-file", "ctrl-i-missing"}
 	flags := []string{"", "-print-default-template", "-print-ctrl-i", "-h"}
 	group := func(f string) string { return strings.SplitN(f, "-", 2)[0] }
 	var cases []c20Case
